@@ -140,6 +140,7 @@ namespace vf
             pl::Reg& r = pl::Reg::get();
             for (auto& s : r.errors) e.add("lifetime-teardown", s);
             if (!r.live.empty()) e.add("leak", str(r.live.size()) + " tracked object(s) still alive after every container was destroyed");
+            if (!r.own_blocks.empty()) e.add("leak", str(r.own_blocks.size()) + " block(s) obtained from a payload's own operator new were never given back to its operator delete");
             if (take_asan()) e.add("asan", "AddressSanitizer report during teardown");
             out.violated = !e.empty();
             return out;
